@@ -1,12 +1,21 @@
 #!/bin/bash
-# Offline setup after a fresh restore: nothing is fetched; warms the Kani target dirs so that the
-# first check does not pay for compiling the dependency graph in every slot.
+# Offline setup after a fresh restore: nothing is fetched.  Warms the cargo caches the checks use so that
+# the first check does not pay for compiling the dependency graphs:
+#  - Kani target dirs ("slots") for every harness crate,
+#  - the nightly target dir used for MIR dumps (mirsym),
+#  - the native replay crate (used only when a check needs to confirm a counterexample).
 set -u
 cd "$(dirname "$0")"
 export CARGO_NET_OFFLINE=true
 mkdir -p .build/logs evidence replays
-for c in kani/*/; do
+for c in kani/*/ replay/; do
   [ -f "$c/Cargo.toml" ] && cp /repo/Cargo.lock "$c/Cargo.lock"
 done
-python3 lib/warm.py || true
+python3 lib/warm.py > .build/logs/setup_warm.log 2>&1 &
+W=$!
+for crate in data cas_client mdb_shard deduplication chunk_cache cas_object file_utils; do
+  ( cd /repo/$crate && CARGO_TARGET_DIR=/verif/.build/mir_target cargo +nightly rustc --offline --lib -- -Zunpretty=mir -C debug-assertions=off -C overflow-checks=on -Awarnings > /dev/null 2>> /verif/.build/logs/setup_mir.log )
+done
+( cd replay && CARGO_TARGET_DIR=/verif/.build/replay_target cargo test --offline --no-run > /verif/.build/logs/setup_replay.log 2>&1 )
+wait $W
 exit 0
